@@ -1,6 +1,7 @@
 import SqVerif.Props.C03Skel
 import SqVerif.SkelTwoPLTrans
 import SqVerif.SkelTwoPLPaths
+import SqVerif.SkelPathsB
 /-!
 # C03 — the bridge: operations whose skeletons pass the monitors ARE serializable
 
@@ -476,33 +477,11 @@ def trGateRetry : List Ev :=
    .call (.SIM .c) "isActive" true, .chk .simActive, .call (.SIM .c) "<gate>" true,
    .qrel (.Q .c), .chk .assert, .alias .CUR (.SIM .c), .rel (.SIM .c)]
 
-theorem trGateRetry_path : paths Gen._single_gate trGateRetry .norm := by
-  have hA : Sem (.check .active) [] [.chk .active] .norm [] := ⟨rfl, rfl, rfl⟩
-  have hB : Sem (.ite .any .ret .skip) [] [] .norm [] := Sem.iteElse rfl ⟨rfl, rfl, rfl⟩
-  have hacq : Sem (.acquire .CUR false) [] [.acq .CUR false] .norm [] := ⟨rfl, rfl, rfl⟩
-  have hretry : Sem (.seq (.release .CUR) .cont) [] ([.rel .CUR] ++ []) .cont [] :=
-    Sem.seqN (⟨rfl, rfl, rfl⟩ : Sem (.release .CUR) [] [.rel .CUR] .norm []) ⟨rfl, rfl, rfl⟩
-  have hgot : Sem (.seq (.alias .CUR (.SIM .c)) .ret) [] ([.alias .CUR (.SIM .c)] ++ []) .ret [] :=
-    Sem.seqN (⟨rfl, rfl, rfl⟩ : Sem (.alias .CUR (.SIM .c)) [] [.alias .CUR (.SIM .c)] .norm []) ⟨rfl, rfl, rfl⟩
-  have hit1 := Sem.seqN hacq (Sem.iteThen (c := .any) (b := .seq (.alias .CUR (.SIM .c)) .ret) rfl hretry)
-  have hit2 := Sem.seqN hacq (Sem.iteElse (c := .any) (a := .seq (.release .CUR) .cont) rfl hgot)
-  have hC := Sem.scopeOf (Sem.loopAgain hit1 (Sem.loopDone hit2 (by decide)))
-  have hD : Sem (.qlock (.Q .c)) [] [.qacq (.Q .c)] .norm [] := ⟨rfl, rfl, rfl⟩
-  have hbody : Sem (.seq (.call (.SIM .c) "isActive" true) (.seq (.check .simActive)
-      (.ite .any (.call (.SIM .c) "<gate>" true) .skip))) [] _ .norm [] :=
-    Sem.seqN (⟨rfl, Or.inl rfl, rfl⟩ :
-        Sem (.call (.SIM .c) "isActive" true) [] [.call (.SIM .c) "isActive" true] .norm [])
-      (Sem.seqN (⟨rfl, rfl, rfl⟩ : Sem (.check .simActive) [] [.chk .simActive] .norm [])
-        (Sem.iteThen rfl (⟨rfl, Or.inl rfl, rfl⟩ :
-          Sem (.call (.SIM .c) "<gate>" true) [] [.call (.SIM .c) "<gate>" true] .norm [])))
-  have hfin : Sem (.seq (.qunlock (.Q .c)) (.seq (.check .assert) (.seq (.alias .CUR (.SIM .c))
-      (.release (.SIM .c))))) [] _ .norm [] :=
-    Sem.seqN (⟨rfl, rfl, rfl⟩ : Sem (.qunlock (.Q .c)) [] [.qrel (.Q .c)] .norm [])
-      (Sem.seqN (⟨rfl, rfl, rfl⟩ : Sem (.check .assert) [] [.chk .assert] .norm [])
-        (Sem.seqN (⟨rfl, rfl, rfl⟩ : Sem (.alias .CUR (.SIM .c)) [] [.alias .CUR (.SIM .c)] .norm [])
-          (⟨rfl, rfl, rfl⟩ : Sem (.release (.SIM .c)) [] [.rel (.SIM .c)] .norm [])))
-  have hE := Sem.finallyOf hbody hfin
-  exact ⟨[], Sem.seqN hA (Sem.seqN hB (Sem.seqN hC (Sem.seqN hD hE)))⟩
+/-- the trace is a path of the regenerated skeleton: checked by the verified path checker (`SkelPathsB`), not by a
+    derivation that would depend on the shape of the generated term — a behaviour-preserving rewrite of
+    `_single_gate` / `_lock_simulating_node` (branches of the re-validation `if` flipped, locals renamed) changes the
+    nesting of `Gen._single_gate`, not its paths -/
+theorem trGateRetry_path : paths Gen._single_gate trGateRetry .norm := pathsB_sound _ _ _ (by decide +kernel)
 
 /-- the effect of event `i`: add `i + 1` to every resource of the footprint -/
 def exF : Nat → List Res → St Nat → St Nat := fun i fp => mkEff 0 fp (fun st r => st r + i + 1)
